@@ -31,6 +31,7 @@ type Contract struct {
 	Clauses []*Clause
 	Assigns []string // heap keys / ghost names havoced by a call; "*" = everything; nil = nothing
 	Fresh   []string // result names that are freshly allocated objects
+	Foreign []string // result names that are not objects allocated by the calling function (A-STORAGE)
 	Inline  bool     // callers inline the body instead of using the contract
 	Props   []string
 	File    string
@@ -148,7 +149,7 @@ func (sp *Specs) parseFile(path string, goFile bool) error {
 	}
 	// join continuation lines: a line whose first word is not a keyword continues the previous one
 	keywords := map[string]bool{"onalloc": true, "func": true, "lib": true, "pure": true, "abstract": true, "ghost": true, "requires": true, "ensures": true,
-		"loop": true, "assigns": true, "fresh": true, "names": true, "inline": true, "property": true, "assume": true, "canary": true, "cover": true, "effectfree": true}
+		"loop": true, "assigns": true, "fresh": true, "foreign": true, "names": true, "inline": true, "property": true, "assume": true, "canary": true, "cover": true, "effectfree": true}
 	var joined []line
 	for _, l := range lines {
 		w := strings.Fields(l.s)[0]
@@ -260,6 +261,10 @@ func (sp *Specs) parseFile(path string, goFile bool) error {
 				for _, p := range strings.Split(rest, ",") {
 					cur.Fresh = append(cur.Fresh, strings.TrimSpace(p))
 				}
+			case "foreign":
+				for _, p := range strings.Split(rest, ",") {
+					cur.Foreign = append(cur.Foreign, strings.TrimSpace(p))
+				}
 			case "inline":
 				cur.Inline = true
 			case "effectfree":
@@ -333,4 +338,13 @@ func (c *Contract) allProps() []string {
 	}
 	sort.Strings(out)
 	return out
+}
+
+func (c *Contract) isForeign(n string) bool {
+	for _, x := range c.Foreign {
+		if x == n {
+			return true
+		}
+	}
+	return false
 }
